@@ -1,0 +1,46 @@
+//go:build verif
+
+package storage
+
+import (
+	"encoding/binary"
+
+	"github.com/MixinNetwork/mixin/crypto"
+	"github.com/dgraph-io/badger/v4"
+)
+
+// VerifC28ConsensusRecord is one CONSENSUSSNAPSHOT record as stored: the key's
+// timestamp and snapshot hash, and the raw value (empty, or the hash of the
+// next consensus operation's transaction).
+type VerifC28ConsensusRecord struct {
+	Timestamp uint64
+	Snapshot  crypto.Hash
+	Value     []byte
+}
+
+// VerifC28ConsensusRecords lists every CONSENSUSSNAPSHOT record in key order
+// (read-only; the C28 harness observes the recorded chain with it).
+func (s *BadgerStore) VerifC28ConsensusRecords() []VerifC28ConsensusRecord {
+	txn := s.snapshotsDB.NewTransaction(false)
+	defer txn.Discard()
+
+	opts := badger.DefaultIteratorOptions
+	opts.Prefix = []byte(graphPrefixConsensusSnapshot)
+	it := txn.NewIterator(opts)
+	defer it.Close()
+
+	var out []VerifC28ConsensusRecord
+	for it.Seek(opts.Prefix); it.Valid(); it.Next() {
+		key := it.Item().KeyCopy(nil)
+		val, err := it.Item().ValueCopy(nil)
+		if err != nil {
+			panic(err)
+		}
+		var r VerifC28ConsensusRecord
+		r.Timestamp = binary.BigEndian.Uint64(key[len(graphPrefixConsensusSnapshot):])
+		copy(r.Snapshot[:], key[len(graphPrefixConsensusSnapshot)+8:])
+		r.Value = val
+		out = append(out, r)
+	}
+	return out
+}
